@@ -35,6 +35,17 @@ type AuthCfg struct {
 	// Adversary, when non-empty, replaces the honest SCRAM server by a scripted one (C15); each
 	// element names one server message of the alphabet documented in sasl_adversary.go.
 	Adversary []string `json:"adversary,omitempty"`
+	// LoginPrompts: the two challenges of the LOGIN mechanism (default "Username:", "Password:").
+	// The mechanism has no specification beyond an expired draft; servers differ in spelling
+	// and some repeat a prompt. The answers are positional.
+	LoginPrompts []string `json:"loginPrompts,omitempty"`
+}
+
+func (a AuthCfg) loginPrompt(i int) []byte {
+	if len(a.LoginPrompts) == 2 {
+		return []byte(a.LoginPrompts[i])
+	}
+	return []byte([]string{"Username:", "Password:"}[i])
 }
 
 // StepOut is the server's reaction to one client response.
@@ -136,13 +147,13 @@ func (l *loginSrv) Step(resp []byte, has bool) StepOut {
 			// initial response carries the user name
 			l.user = string(resp)
 			l.step = 2
-			return StepOut{Challenge: []byte("Password:")}
+			return StepOut{Challenge: l.a.loginPrompt(1)}
 		}
-		return StepOut{Challenge: []byte("Username:")}
+		return StepOut{Challenge: l.a.loginPrompt(0)}
 	case 1:
 		l.user = string(resp)
 		l.step = 2
-		return StepOut{Challenge: []byte("Password:")}
+		return StepOut{Challenge: l.a.loginPrompt(1)}
 	default:
 		if eq(l.user, l.a.User) && eq(string(resp), l.a.Pass) {
 			return StepOut{Done: true, OK: true, User: l.user}
